@@ -135,6 +135,8 @@ class Connection(object):
 
         self.networking_thread = None
         self.new_networking_thread = None
+        self.socket = None
+        self.file_object = None
         self.packet_listeners = []
         self.early_packet_listeners = []
         self.outgoing_packet_listeners = []
@@ -475,7 +477,8 @@ class Connection(object):
                 except socket.error:
                     pass
                 finally:
-                    self.file_object.close()
+                    if self.file_object is not None:
+                        self.file_object.close()
                     self.socket.close()
                     self.socket = None
 
